@@ -1,11 +1,253 @@
-import Hgxv.Model.C01
-/-! # C01 - property theorems (see `Hgxv/Model/C01.lean` for the model, `notes/C01.md` for the reading) -/
+import Hgxv.Proofs.C01Cor
+import Hgxv.Proofs.C01Query
+/-! # C01 - property theorems
+
+Model and vocabulary: `Hgxv/Model/C01.lean` (concrete `Store`/`step`/`answer`, abstract `Spec`); helper lemmas:
+`Hgxv/Proofs/C01Basic.lean` (association lists, `canon`), `C01Inv.lean` (`Inv` and the primitive updates),
+`C01Ops.lean` (public operations, histories), `C01Cor.lean` (corollaries), `C01Abs.lean` / `C01Ref.lean` /
+`C01Query.lean` (abstraction, one-step commutation for the 18 operations, the 32 queries, histories).
+
+Hypotheses used below and why they are the property's own:
+* `c.WF` for every command of a history: every raw hyperedge handed to `add_edge(s)` is a duplicate-free
+  node tuple (the quantifier speaks of node *sets*).
+* `C01.Reachable s`: `s` is a slot of the state after some history of well-formed public calls
+  (`new`, `copy`, and the 18 mutating calls), starting from fresh hypergraphs. -/
 open C01 AL
+
+/-- states reachable by a history of well-formed public calls -/
+def C01.Reachable (s : Store) : Prop :=
+  ∃ (k : Nat) (cs : List Cmd) (i : Nat), (∀ c ∈ cs, c.WF) ∧ (run (init k) cs)[i]? = some s
 
 /-- the queries that take the `order/size/up_to` arguments -/
 def C01.filterQueries (n : Node) : List (Filter → Query) :=
   [Query.edges, Query.edgesMeta, Query.numEdges, Query.weights, Query.weightsDict, Query.incident n,
    Query.neighbors n, Query.degree n, Query.degreeSeq, Query.degreeDist, Query.isolated, Query.isIsolated n]
+
+/-- a history with a re-insertion in another node order, a removal and re-insertion, a weight update, a
+`remove_node(keep_edges=True)` that merges `{1,2,3}` into `{1,2}`, a rejected batch, a copy and a batched
+node removal on the copy; used by the non-vacuity examples -/
+def C01.demo : List Cmd :=
+  [.new 0 true [], .on 0 (.addEdge [3, 1, 2] (some 8) (some [(2, 5)])), .on 0 (.addEdge [2, 1] (some 4) none),
+   .on 0 (.addEdge [1, 2, 3] (some 6) none), .on 0 (.addEdge [4, 3] none none), .on 0 (.removeEdge [3, 4]),
+   .on 0 (.addEdge [3, 4] (some 2) none), .on 0 (.addNodes [7, 8] none), .on 0 (.setWeight [2, 1] 12),
+   .on 0 (.removeNode 3 true), .on 0 (.removeEdges [[1, 2], [2, 1]]), .copy 0 1,
+   .on 1 (.removeNodes [1, 4] false)]
+
+theorem C01.demo_wf : ∀ c ∈ C01.demo, c.WF := by
+  intro c hc
+  simp only [C01.demo, List.mem_cons, List.not_mem_nil, or_false] at hc
+  rcases hc with h | h | h | h | h | h | h | h | h | h | h | h | h <;> subst h <;> simp [Cmd.WF, Op.WF]
+
+/-- **Invariant for every history.** After any finite sequence of well-formed public calls every slot satisfies
+`Inv`: `_reverse_edge_list` inverts `_edge_list`, keys are canonical and listed once, weights / metadata tables
+have exactly the ids in use, `_adj[n]` holds exactly the ids of the hyperedges containing `n` - each once -
+every node of every hyperedge is a node, node metadata has exactly the nodes, ids are below `_next_edge_id`. -/
+theorem C01_inv (k : Nat) (cs : List Cmd) (hwf : ∀ c ∈ cs, c.WF) : ∀ s ∈ run (init k) cs, Inv s :=
+  run_inv cs (init k) hwf (init_inv k)
+
+theorem C01.Reachable.inv {s : Store} (h : C01.Reachable s) : Inv s := by
+  obtain ⟨k, cs, i, hwf, hs⟩ := h
+  exact C01_inv k cs hwf s (List.mem_of_getElem? hs)
+
+/-- non-vacuity: the demo history is well-formed, and it does what its comment says -/
+example : (∀ c ∈ C01.demo, c.WF) ∧
+    query (run (init 2) C01.demo) 0 (.weightsDict {}) = .ews [([1, 2], 26), ([4], 2)] ∧
+    query (run (init 2) C01.demo) 1 (.nodes) = .nats [2, 7, 8] :=
+  ⟨C01.demo_wf, by decide, by decide⟩
+
+/-- **Refinement: every query, after every history, is answered as the abstract hypergraph of that history.**
+`Spec` is a list of nodes with metadata plus an association list from node sets to (weight, metadata);
+`Spec.step` is the plain map update, `Spec.query` a filter / map over those two lists.  For every number of
+slots, every finite history of well-formed public calls (`new`, `copy`, the 18 mutating calls, accepted or
+rejected), every slot and every query (32 kinds, every `order/size/up_to` filter) the tables of the
+implementation model answer *identically* (same value, same listing order).  Since `cs` is arbitrary the
+statement holds after every prefix of a history. -/
+theorem C01_refines (k : Nat) (cs : List Cmd) (hwf : ∀ c ∈ cs, c.WF) (i : Nat) (q : Query) :
+    query (run (init k) cs) i q = Spec.query (Spec.run (Spec.init k) cs) i q :=
+  query_sim _ _ (run_sim cs _ _ hwf (init_sim k)) i q
+
+/-- the same for states and outcomes: the abstract state after a history is the abstraction (forget the ids)
+of the concrete one, slot by slot, and the next well-formed command is accepted by the one iff by the other -/
+theorem C01_refines_state (k : Nat) (cs : List Cmd) (hwf : ∀ c ∈ cs, c.WF) (c : Cmd) (hc : c.WF) :
+    Spec.run (Spec.init k) cs = (run (init k) cs).map abs ∧
+    (step (run (init k) cs) c).2 = (Spec.step (Spec.run (Spec.init k) cs) c).2 := by
+  have h := run_sim cs _ _ hwf (init_sim k)
+  exact ⟨h.1, (step_sim _ _ c hc h).2⟩
+
+/-- the abstract states are what the property calls them: the node list and the key list are duplicate-free,
+every key is a duplicate-free sorted node tuple (a node *set*), and all its nodes are nodes of the hypergraph -/
+theorem C01_spec_wellformed (k : Nat) (cs : List Cmd) (hwf : ∀ c ∈ cs, c.WF) :
+    ∀ a ∈ Spec.run (Spec.init k) cs,
+      (keys a.nodes).Nodup ∧ (keys a.edges).Nodup ∧
+      ∀ e ∈ keys a.edges, e.Nodup ∧ canon e = e ∧ ∀ n ∈ e, n ∈ keys a.nodes := by
+  intro a ha
+  rw [(C01_refines_state k cs hwf (.copy 0 0) trivial).1] at ha
+  obtain ⟨s, hs, rfl⟩ := List.mem_map.mp ha
+  have h := C01_inv k cs hwf s hs
+  refine ⟨by rw [nodes_keys h]; exact h.adj_nodup, by rw [abs_keys]; exact h.el_nodup, ?_⟩
+  intro e he
+  rw [abs_keys] at he
+  obtain ⟨id, hid⟩ := Option.isSome_iff_exists.mp ((mem_keys_iff _ _).mp he)
+  refine ⟨(h.key_canon e id hid).1, (h.key_canon e id hid).2, ?_⟩
+  intro n hn
+  rw [nodes_keys h, mem_keys_iff]
+  exact h.nodes_in id e (h.rev_of_edge _ _ hid) n hn
+
+/-- non-vacuity: the spec run of the demo history gives the expected (non-trivial) answers, and a rejected
+command is rejected by the spec as well -/
+example :
+    Spec.query (Spec.run (Spec.init 2) C01.demo) 0 (.weightsDict {}) = .ews [([1, 2], 26), ([4], 2)] ∧
+    Spec.query (Spec.run (Spec.init 2) C01.demo) 0 (.degreeSeq {}) = .pairs [(1, 1), (2, 1), (4, 1), (7, 0), (8, 0)] ∧
+    Spec.query (Spec.run (Spec.init 2) C01.demo) 1 (.nodesMeta) = .nmetas [(2, []), (7, []), (8, [])] ∧
+    (Spec.step (Spec.run (Spec.init 2) (C01.demo.take 10)) (.on 0 (.removeEdges [[1, 2], [2, 1]]))).2 = .rej := by
+  decide
+
+/-- **Incident exactly once, and to no other node.** In every reachable state: a hyperedge key is listed once;
+every node of a key is a node of the hypergraph; and for a node `n` and any admissible filter,
+`get_incident_edges(n, …)` lists without repetition exactly the keys that contain `n` (and pass the filter),
+so a key is never reported for a node it does not contain; `degree` is the number of those keys. -/
+theorem C01_incident_once (s : Store) (hr : C01.Reachable s) (n : Node) (f : Filter) (o : Option Int)
+    (hf : f.resolve = some o) :
+    (keys s.edgeList).Nodup ∧
+    (∀ e ∈ keys s.edgeList, n ∈ e → answer s (.checkNode n) = .bool true) ∧
+    (answer s (.checkNode n) = .bool true →
+      ∃ L, answer s (.incident n f) = .edges L ∧ L.Nodup ∧
+        (∀ e, e ∈ L ↔ (e ∈ keys s.edgeList ∧ n ∈ e ∧ keepEdge o false e = true)) ∧
+        answer s (.degree n f) =
+          .int ((keys s.edgeList).filter fun e => decide (n ∈ e) && keepEdge o false e).length) := by
+  have h := hr.inv
+  refine ⟨h.el_nodup, ?_, ?_⟩
+  · intro e he hne
+    obtain ⟨id, hid⟩ := Option.isSome_iff_exists.mp ((mem_keys_iff _ _).mp he)
+    have := h.nodes_in id e (h.rev_of_edge _ _ hid) n hne
+    simp [answer, this]
+  · intro hn
+    have hn' : (get? s.adj n).isSome = true := by simpa [answer] using hn
+    obtain ⟨hnd, hmem⟩ := h.incidentKeys_spec n hn'
+    have hL : (List.filter (keepEdge o false) (incidentKeys s n)).Nodup := (List.filter_sublist).nodup hnd
+    have hmemL : ∀ e, e ∈ List.filter (keepEdge o false) (incidentKeys s n) ↔
+        (e ∈ keys s.edgeList ∧ n ∈ e ∧ keepEdge o false e = true) := by
+      intro e
+      rw [List.mem_filter, hmem e, mem_keys_iff]
+      constructor
+      · rintro ⟨⟨a, b⟩, c⟩; exact ⟨a, b, c⟩
+      · rintro ⟨a, b, c⟩; exact ⟨⟨a, b⟩, c⟩
+    refine ⟨(incidentKeys s n).filter (keepEdge o false), ?_, hL, hmemL, ?_⟩
+    · simp [answer, incidentF, hn', hf, ofOpt]
+    · have hperm : ((incidentKeys s n).filter (keepEdge o false)).Perm
+          ((keys s.edgeList).filter fun e => decide (n ∈ e) && keepEdge o false e) := by
+        rw [List.perm_ext_iff_of_nodup hL ((List.filter_sublist).nodup h.el_nodup)]
+        intro e
+        rw [hmemL e, List.mem_filter]
+        simp
+      simp [answer, incidentF, hn', hf, ofOpt, hperm.length_eq]
+
+/-- non-vacuity: node 1 of the demo prefix has two incident hyperedges, node 5 is not a node -/
+example :
+    query (run (init 2) (C01.demo.take 7)) 0 (.incident 1 {}) = .edges [[1, 2, 3], [1, 2]] ∧
+    query (run (init 2) (C01.demo.take 7)) 0 (.incident 3 { size := some 2 }) = .edges [[3, 4]] ∧
+    query (run (init 2) (C01.demo.take 7)) 0 (.checkNode 5) = .bool false := by decide
+
+/-- **Node order is irrelevant.** Every entry point that takes a hyperedge behaves identically on any two
+listings of the same node set (in every state, no hypothesis): `add_edge`, `remove_edge`, `set_weight`,
+`set_edge_metadata`, `set_attr_to_edge_metadata`, `remove_attr_from_edge_metadata`, `check_edge`, `get_weight`,
+`get_edge_metadata`; and `remove_edges` on batches whose members are re-listed. (`add_edges` with weights
+compares the *raw* tuples for repetitions before anything else - `[(1,2),(2,1)]` passes, `[(1,2),(1,2)]` is
+rejected; once accepted each member goes through `add_edge`, covered here.) -/
+theorem C01_order_irrelevant (s : Store) (r1 r2 : List Nat) (hp : r1.Perm r2) :
+    (∀ w md, apply s (.addEdge r1 w md) = apply s (.addEdge r2 w md)) ∧
+    apply s (.removeEdge r1) = apply s (.removeEdge r2) ∧
+    (∀ w, apply s (.setWeight r1 w) = apply s (.setWeight r2 w)) ∧
+    (∀ md, apply s (.setEdgeMeta r1 md) = apply s (.setEdgeMeta r2 md)) ∧
+    (∀ k v, apply s (.setAttrEdge r1 k v) = apply s (.setAttrEdge r2 k v)) ∧
+    (∀ k, apply s (.delAttrEdge r1 k) = apply s (.delAttrEdge r2 k)) ∧
+    answer s (.checkEdge r1) = answer s (.checkEdge r2) ∧
+    answer s (.weight r1) = answer s (.weight r2) ∧
+    answer s (.edgeMeta r1) = answer s (.edgeMeta r2) ∧
+    (∀ ps : List (List Nat × List Nat), (∀ p ∈ ps, p.1.Perm p.2) →
+      apply s (.removeEdges (ps.map (·.1))) = apply s (.removeEdges (ps.map (·.2)))) := by
+  have hc := canon_eq_of_perm hp
+  refine ⟨?_, ?_, ?_, ?_, ?_, ?_, ?_, ?_, ?_, ?_⟩
+  · intro w md; simp only [apply, addEdge, hc]
+  · simp only [apply, removeEdge, hc]
+  · intro w; simp only [apply, setWeight, hc]
+  · intro md; simp only [apply, setEdgeMeta, hc]
+  · intro k v; simp only [apply, setAttrEdge, hc]
+  · intro k; simp only [apply, delAttrEdge, hc]
+  · simp only [answer, hc]
+  · simp only [answer, hc]
+  · simp only [answer, hc]
+  · intro ps h; exact removeEdges_congr s ps h
+
+/-- non-vacuity: two different listings of `{1,2,3}` -/
+example : [3, 1, 2].Perm [1, 2, 3] ∧ [3, 1, 2] ≠ [1, 2, 3] := by decide
+
+/-- **Re-insertion.** In a reachable state, an accepted `add_edge` of a hyperedge that is already present
+(under any listing of its nodes) leaves the key list, the incidence lists and the nodes as they are; in a
+weighted hypergraph the stored weight becomes old + given (given = 1 when omitted), in an unweighted one it
+stays (= 1); weight and metadata of every other hyperedge are untouched. (The metadata of the re-inserted
+hyperedge is replaced by the given one - `add_edge` documents that.) -/
+theorem C01_reinsert (s : Store) (hr : C01.Reachable s) (raw : List Nat) (w : Option Int) (md : Option Meta)
+    (hpres : answer s (.checkEdge raw) = .bool true) (hacc : (apply s (.addEdge raw w md)).2 = .ok) :
+    let s' := (apply s (.addEdge raw w md)).1
+    s'.edgeList = s.edgeList ∧ s'.adj = s.adj ∧ s'.nmeta = s.nmeta ∧
+    weightOf s' (canon raw) = (if s.weighted then weightOf s (canon raw) + w.getD one else one) ∧
+    (s.weighted = false → weightOf s (canon raw) = one) ∧
+    (∀ e, e ≠ canon raw → weightOf s' e = weightOf s e ∧ emetaOf s' e = emetaOf s e) := by
+  have h := hr.inv
+  have hp : (get? s.edgeList (canon raw)).isSome = true := by simpa [answer] using hpres
+  obtain ⟨id, hid⟩ := Option.isSome_iff_exists.mp hp
+  have hw1 : (get? s.weights id).isSome := by rw [h.w_dom]; simp [h.rev_of_edge _ _ hid]
+  obtain ⟨w0, hw0⟩ := Option.isSome_iff_exists.mp hw1
+  simp only [apply] at hacc ⊢
+  rw [addEdge_present s raw w md id hid hacc]
+  refine ⟨rfl, rfl, rfl, ?_, ?_, ?_⟩
+  · cases hwt : s.weighted with
+    | true => simp [weightOf, addEdgeOld, hid, hwt, hw0]
+    | false => simp [weightOf, addEdgeOld, hid, hwt, hw0, h.unw_one hwt id w0 hw0]
+  · intro hwt; exact h.weightOf_one hwt hp
+  · intro e he
+    cases hge : get? s.edgeList e with
+    | none => simp [weightOf, emetaOf, addEdgeOld, hge]
+    | some id' =>
+      have hne : id ≠ id' := by
+        intro heq; subst heq; exact he (h.id_inj hge hid)
+      constructor
+      · simp only [weightOf, addEdgeOld, hge, Option.bind_some]
+        split
+        · rw [get?_set_ne _ _ _ _ hne]
+        · rfl
+      · simp only [emetaOf, addEdgeOld, hge, Option.bind_some]
+        rw [get?_set_ne _ _ _ _ hne]
+
+/-- non-vacuity: step 3 of the demo re-inserts `{1,2,3}` as `[1,2,3]` after `[3,1,2]`: 8 + 6 = 14; the same
+on an unweighted hypergraph keeps weight 1 (= 4 quanta) -/
+example :
+    query (run (init 2) (C01.demo.take 3)) 0 (.checkEdge [1, 2, 3]) = .bool true ∧
+    query (run (init 2) (C01.demo.take 4)) 0 (.weight [2, 3, 1]) = .int 14 ∧
+    query (run (init 1) [.on 0 (.addEdge [3, 1] none none), .on 0 (.addEdge [1, 3] (some 4) none)]) 0
+      (.weightsDict {}) = .ews [([1, 3], 4)] := by decide
+
+/-- **A rejected call changes nothing.** For every history of well-formed calls and every next command
+(single or batched, well-formed or not): if it is rejected, the whole state - every table of every slot -
+is exactly what it was. -/
+theorem C01_rejected_noop (k : Nat) (cs : List Cmd) (hwf : ∀ c ∈ cs, c.WF) (c : Cmd)
+    (hrej : (step (run (init k) cs) c).2 = .rej) : (step (run (init k) cs) c).1 = run (init k) cs :=
+  step_rej _ c (C01_inv k cs hwf) hrej
+
+/-- the same for one hypergraph: a rejected operation returns the store unchanged -/
+theorem C01_rejected_noop_store (s : Store) (hr : C01.Reachable s) (op : Op)
+    (hrej : (apply s op).2 = .rej) : (apply s op).1 = s :=
+  apply_rej s op hr.inv hrej
+
+/-- non-vacuity: rejected calls occur - a batch with a repeated member (command 10 of the demo), a batch
+with a missing member, a weight on an unweighted hypergraph, short metadata list, `remove_node` of a non-node -/
+example :
+    (step (run (init 2) (C01.demo.take 10)) (.on 0 (.removeEdges [[1, 2], [2, 1]]))).2 = .rej ∧
+    (step (run (init 2) (C01.demo.take 10)) (.on 0 (.removeNodes [1, 3] true))).2 = .rej ∧
+    (step (run (init 2) (C01.demo.take 10)) (.on 1 (.addEdge [1, 2] (some 8) none))).2 = .rej ∧
+    (step (run (init 2) (C01.demo.take 10)) (.on 0 (.addEdges [[1, 5], [5, 6]] (some [4, 4]) (some [[]])))).2 = .rej ∧
+    (step (run (init 2) (C01.demo.take 10)) (.on 0 (.removeNode 3 false))).2 = .rej := by decide
 
 /-- **Filters.** For every store and every query with a filter: `size = k` answers exactly as `order = k - 1`
 (with the same `up_to`); giving both `order` and `size` is rejected; and the hyperedge listing with
